@@ -201,7 +201,7 @@ def run_case(case, ctx):
         ctx.check("secular-elements-kept", float(numpy.max(kept)), 1e-12 * sc * dim * dim, dict(det, what="R[a,a,b,b], R[a,b,a,b] vs non-secular twin"))
         ctx.check("secular-others-zero", float(numpy.max(numpy.abs(Ts[..., ~pat]))) if (~pat).any() else 0.0, 1e-13 * sc * dim * dim, det)
         nontriv_ns = float(numpy.max(numpy.abs(T2[..., ~pat]))) > 1e-6 * sc if (~pat).any() else False
-    elif not is_sec_cfg and not ops_form and not degenerate and label in ("stR", "direct-Redfield", "Lindblad-tensor", "direct-TDRedfield", "cRF"):
+    elif not is_sec_cfg and not ops_form and not degenerate and label in ("stR", "direct-Redfield", "Lindblad-tensor", "direct-TDRedfield", "cRF", "cRF-TD", "stF-TD", "direct-TDFoerster"):
         # secularise a tensor-form object ourselves, both code paths
         legacy = bool(rng.random() < 0.5)
         # the tensor may or may not have been looked at inside the context before it is secularised there
